@@ -10,6 +10,11 @@ CHECKS = {
    text='The whole property (no UB for every input) is not decidable with the tools available; decided are necessary conditions, each for every path: every owning field (96 inferred) is released by its record\'s destructor (D13 found, replayed with LeakSanitizer, repaired); reads of the caller\'s chunk follow a fresh index < len test; subscripts on paired arrays are PROVED (213) or UNKNOWN (listed), an off-by-one guard or an unguarded unsigned x - k index is REFUTED (D12 found, replayed with UBSan, repaired); the tx destructor unlinks before free; no dereference after a call that may free the tx; container lookups are NULL-tested or index-bounded; arithmetic on the possibly-NULL chunk pointer is guarded (D16 x4 recorded).',
    note='UNKNOWN sites are reported in evidence and never alarm. Callbacks are opaque and well behaved. Index arithmetic by small constants does not wrap.',
    ref='§4.1'),
+ 'C02': dict(
+   technique='static: provenance classification of every store to the wire-derived strings (copy of bytes of the current line / NULL / tabled placeholder); linear-form rule that every such slice ends at a scan position; loop-structure rule that the line splitters step the cursor only past bytes their loop condition looked at; path rule for the merge of repeated header fields',
+   text='The statement itself - what is reported equals what was on the wire - is an equality between runtime byte strings over a grammar of inputs and is NOT decided. Decided, each for every path, are structural facts that this equality rests on and whose violation breaks it: every string of the parse result that the statement lists (request/response line, method, URI, protocol, status, message, header names and values in the stream parsers) is stored as NULL, as a copy of bytes of the current line, or as the one tabled placeholder - never a literal or bytes of another object; in each such copy (data + S, n) the end S + n is a variable of the function (the cursor where the scan stopped, or the length), not a constant distance from one, and S is a variable or a variable + 1; in the request-line and status-line splitters the cursor only steps over bytes that the condition of the enclosing loop examined; on the repetition arm of both header processors the existing value grows by ", " and then the new value. Neighbouring facts the statement also needs are decided under the properties that own them (line assembly and folding across chunks C03, repetition flags C11, port range C13, case-insensitive first-match lookup C17, derived Host C11).',
+   note='A necessary-condition check only: the choice of delimiters, the derived fields (cookies, credentials, parameters) and equality as such are not covered.',
+   ref='§4.2'),
  'C14': dict(
    technique='static forward must-analysis (typestate) for the carried CR, pairing rules for the piece builders, exit rules for the boundary-matching state',
    text='Decides the set-aside / replay discipline that chunk independence of the multipart parser rests on, for every path: cr_aside is overwritten only when no CR is owed (D4 found here, replayed and repaired by fix 66cffda), every builder to_str is followed by clear before reuse, every exit from the boundary state replays the stored pieces first and they are cleared only after the replay, the end-of-chunk delivery excludes exactly the set-aside CR, text parts become parameters with their own name and value. Not decided: byte-exact part contents and flag equality across chunkings.',
@@ -97,7 +102,6 @@ CHECKS = {
    ref='§4.19'),
 }
 NA = {
- 'C02': 'parse fidelity is an equality between runtime byte strings and the wire over a grammar of inputs; no clause of it is visible in the shape of the code, and a static proxy would be a frozen fragment (DESIGN.md §4.2)',
 }
 
 # clauses added in the second half of the build round (appended to the entries above; DESIGN.md §4 has the detail)
